@@ -838,6 +838,21 @@ def match_predicate(where, case, violation):
         import json as _json
         text = _json.dumps(violation.get("detail"))
         return "form_mismatch" in text and "bitmasked" in _json.dumps(lg.node_classes(case["truth"]))
+    if where.get("kind") == "union_of_lazy_parts_number_type":
+        # a union built at run time (merge / merge_as_union / mergemany) over parts that are still VirtualArrays: the
+        # eager array merges an integer content into a float content when the union is simplified, the lazy one cannot
+        # see that the two are mergeable - the values differ in number type only
+        det = violation.get("detail") or {}
+        classes = (det.get("facts") or {}).get("classes") or []
+        if not any(c.startswith("UnionArray") for c in classes):
+            return False
+        if not any(e.get("e") == "op" and e["op"].get("op") in ("merge", "merge_as_union", "mergemany") for e in case.get("events", [])):
+            return False
+        try:
+            eg, lz = vm.from_jsonable(det.get("eager")), vm.from_jsonable(det.get("lazy"))
+        except Exception:
+            return False
+        return (not vm.same(eg, lz)) and vm.same(eg, lz, numeric=True)
     if where.get("kind") == "unsimplified_option_in_type_through_virtual":
         # the type of a lazy result shows an option of an option (e.g. ??int32) where the materialised array shows one:
         # the same nesting that simplify_optiontype cannot remove across a VirtualArray, seen through type()
@@ -851,8 +866,8 @@ def match_predicate(where, case, violation):
 
         def nopt(t):
             return t.count("?") + t.count("option[")
-        if bare(lz) != bare(eg) or nopt(lz) <= nopt(eg):
-            return False
+        if bare(lz) != bare(eg) or nopt(lz) == nopt(eg):
+            return False       # (either side may show the extra option: the Form prediction simplifies what the array cannot)
         return match_predicate({"kind": "simplification_through_virtual", "structure_only": True}, case, violation)
     if where.get("kind") == "simplification_through_virtual":
         # the failing operation is one that simplifies option/union nesting (fillna / simplify / field projection), and the lazy structure has
